@@ -125,6 +125,7 @@ pub fn checks(tier: Tier) -> Vec<Check> {
             classify: Box::new(decoder_labels),
             rule: RULE_DEC,
             exhaustive: false,
+            enumerate: None,
         },
         Check {
             name: "C03.histories".into(),
@@ -135,6 +136,7 @@ pub fn checks(tier: Tier) -> Vec<Check> {
             classify: Box::new(history_labels),
             rule: RULE_HIST,
             exhaustive: false,
+            enumerate: None,
         },
         Check {
             name: "C03.constants".into(),
@@ -145,6 +147,7 @@ pub fn checks(tier: Tier) -> Vec<Check> {
             classify: Box::new(|_, _| vec!["constants"]),
             rule: "public point constants (basepoint, identity, EIGHT_TORSION[i] = i*T) against the model",
             exhaustive: true,
+            enumerate: None,
         },
     ]
 }
